@@ -289,15 +289,30 @@ func runC06(c *Ctx) {
 	d := buildStreamPlan(c, tw, p, nd, nh, maxClient, 20000, c.Arg["lies"] != "0")
 	ns := c.T.Weighted(2, 3, 2, 1)
 	p.Stream = c.T.Bool(1, 2) // TCP re-segmentation of the client's writes
+	if c.T.Bool(1, 3) {
+		// a host that produces bursts larger than any 16-bit length, and whose writes the
+		// network may coalesce before the gateway reads them
+		for i := 0; i < 1+c.T.Choose(3); i++ {
+			p.HostScript = append(p.HostScript, c.T.Bytes([]int{65535, 65536, 65537, 100000, 131072, 200000}[c.T.Choose(6)], 0x99+byte(i)))
+		}
+	}
+	hostStream := c.T.Bool(1, 2)
 	installStalls(c, ns)
 	tw.Tuns = StartTunnels(c, tw.Plans)
-	RunTunnels(c, tw.Tuns, 20000)
+	for _, h := range tw.Tuns[0].Hosts {
+		h.L.StreamBack = hostStream
+	}
+	RunTunnels(c, tw.Tuns, 40000)
 	t := tw.Tuns[0]
 	if t.Client.Failed != "" || t.Err != "" {
 		c.Infra("transport setup failed: %s %s", t.Client.Failed, t.Err)
 		return
 	}
 	v := CheckTunnel(c, t, tw.MC, "C06")
+	if vi := c.S.Viol; vi != nil && vi.Oracle == "C16" && strings.HasPrefix(vi.Sig, "malformed:DATA") {
+		// "every data packet sent to the client is well-formed" is a clause of C06 itself
+		vi.Oracle = "C06"
+	}
 	var sv *StreamVerdict
 	if c.S.Viol == nil {
 		sv = CheckStreams(c, t, v, "C06", true)
@@ -322,11 +337,13 @@ func runC07(c *Ctx) {
 	if c.T.Bool(2, 3) && n > 6 {
 		n = 2 + c.T.Choose(5)
 	}
-	tw := PlanTunnels(c, TunOpts{N: n, Transports: []string{"ws", "legacy"}})
+	idf := c.T.Weighted(3, 1, 2, 1, 2)
+	tw := PlanTunnels(c, TunOpts{N: n, Transports: []string{"ws", "legacy"}, IDFormat: idf})
 	if !BootTun(c, tw, false) {
 		return
 	}
 	var ds []string
+	ds = append(ds, fmt.Sprintf("id-format=%d", idf))
 	for _, p := range tw.Plans {
 		ds = append(ds, buildStreamPlan(c, tw, p, c.T.Choose(5), c.T.Choose(5), 3000, 6000, false))
 		if c.T.Bool(1, 5) {
@@ -347,8 +364,10 @@ func runC07(c *Ctx) {
 	okN := 0
 	for _, t := range tw.Tuns {
 		if t.Client.Failed != "" || t.Err != "" {
-			c.Infra("tunnel %s transport setup failed: %s %s", t.Plan.Name, t.Client.Failed, t.Err)
-			return
+			// every tunnel of this scenario sets up fine when it is alone (all other checks do
+			// exactly that); failing only in company is an isolation failure
+			c.S.Fail("C07", "setup-disturbed", "[%d tunnels, id-format=%d] tunnel %s (%s, connection id %q) could not establish its transport while other tunnels were active: %s %s; events=%s", n, idf, t.Plan.Name, t.Plan.Transport, t.Plan.ConnID, t.Client.Failed, t.Err, t.Client.Describe())
+			break
 		}
 		v := CheckTunnel(c, t, tw.MC, "C07")
 		if c.S.Viol != nil {
